@@ -351,6 +351,27 @@ func runC11(c *Ctx, r *Report) {
 
 	c.checkSiblingSwitches(r, "C11.R4", "map")
 	r.Floor("C11.R4", 2)
+
+	// shared C07.R9: the small representation never indexes past its capacity (thresholds and length field)
+	r.Rule("C07.R9", "(shared) fixed-capacity containers: length fields within capacity, index and slice bounds proven")
+	{
+		sub := NewReport("C07", r.Tier, c)
+		c.checkBoundedContainers(sub, "C07.R9", map[string]bool{"eval": true, "object": true})
+		for _, o := range sub.Obls {
+			if !strings.Contains(o.Func, "Map") && !strings.Contains(o.Func, "object.Range") && !strings.Contains(o.Func, "MakePair") && !strings.Contains(o.Func, "MakeQuad") {
+				continue
+			}
+			switch o.status {
+			case FAIL:
+				r.Fail(o.Rule, o.Func, o.Desc, o.Pos, o.Reason)
+			case ABSTAIN:
+				r.Abstain(o.Rule, o.Func, o.Desc, o.Pos, o.Reason)
+			default:
+				r.Ok(o.Rule, o.Func, o.Desc, o.Pos)
+			}
+		}
+		r.Floor("C07.R9", 15)
+	}
 }
 
 func baseOf(v ssa.Value) ssa.Value {
